@@ -135,6 +135,24 @@ CHECKS = {
              'race).',
         note='Virtual clock (1 s), <= 2 early timer firings per run; legacy '
              'scheduler.'),
+    'C09': dict(
+        level='model_checking', design='3/C09',
+        technique='explicit-state model checking of the implementation: '
+                  'DFS over interleavings of parent and child executions '
+                  '(incl. the synchronous result hand-off) x child outcomes '
+                  'x stop of the child at every point; DB oracles + nested '
+                  'reference model',
+        text='Nesting shapes (depth <= 2, parallel children, undeclared '
+             'input key, caller namespace with fallback resolution, root '
+             'environment read by the child), children started in-process '
+             'and via RPC, child outcomes SUCCESS/ERROR and stop(state) on '
+             'the child at every point: parent task state = child state, '
+             'result = child output, successors once, one completion report '
+             'per child, root id / namespace / environment / undeclared '
+             'keys propagated, root-level outcome allowed by the nested '
+             'reference model.',
+        note='Children addressed by global name in quick; atomic '
+             'transactions.'),
     'C10': dict(
         level='model_checking', design='3/C10',
         technique='explicit-state model checking of the implementation: '
